@@ -200,6 +200,54 @@ Definition self_toggle (t : list port) (buf : str) : option (nat * str) :=
       end
   end.
 
+(* port_is_enabled for a sub-tree port whose 'enabled by' names a port INSIDE it
+   ("name/toggle"): for( ; *n && *n == *e && *n != '/' && *e != '/'; ++n, ++e);
+   subport = ( *e == '/' && *n == '/').  Some (the part of e behind that '/') *)
+Fixpoint subport_split (n e : str) : option str :=
+  match n, e with
+  | c :: n', d :: e' =>
+      if (c =? 47) || (d =? 47) then (if (c =? 47) && (d =? 47) then Some e' else None)
+      else if c =? d then subport_split n' e' else None
+  | _, _ => None
+  end.
+
+(* when such a sub-tree is disabled the walker is still applied to the enabling
+   port: ask_port = port.ports[toggle], at collapsePath(name_buffer ++ "../" ++ enable_port) *)
+Definition sub_toggle (q : port) (b : str) : option (nat * str) :=
+  match q with
+  | Port qn (Some m) (Some sub) =>
+      match meta m with
+      | Some s =>
+          match lookup s enabled_by with
+          | Some (Some v) =>
+              match subport_split qn v with
+              | Some e' =>
+                  match index_op sub e', collapse_str (b ++ [46; 46; 47] ++ v) with
+                  | Some j, Some (_, a) => Some (j, a)
+                  | _, _ => None
+                  end
+              | None => None
+              end
+          | _ => None
+          end
+      | None => None
+      end
+  | _ => None
+  end.
+
+(* what is reported for a sub-tree that is not visited *)
+Definition skipped_reports (rt : option oracle) (ids : list nat) (i : nat) (q : port) (b : str) : list report :=
+  match rt with
+  | Some o =>
+      if negb (o_null o b) && o_disabled o b then
+        match sub_toggle q b with
+        | Some (j, a) => [(ids ++ [i; j], a)]
+        | None => []
+        end
+      else []
+  | None => []
+  end.
+
 Section Table.
   (* walk_sub = walk_ports on a port's own sub-table (the recursion of walk_port below) *)
   Variable walk_sub : port -> list nat -> str -> wres.
@@ -218,7 +266,7 @@ Section Table.
                          | Some o => o_null o b || o_disabled o b
                          | None => false
                          end in
-             if skip then WOk [] b else walk_sub q (ids ++ [i]) b)
+             if skip then WOk (skipped_reports rt ids i q b) b else walk_sub q (ids ++ [i]) b)
           qn buf buf
     | Port qn _ None =>
         if has_char 35 qn then
